@@ -222,6 +222,7 @@ KSRC = """
 %(incl)s
 /*gpukern*/ void %(name)s(const int %(lim)s, /*gpuglmem*/ int32_t* cnt, /*gpuglmem*/ double* y){
   %(pre)s
+%(first)s
   %(open)s//vectorize_over %(v)s %(bound)s
     cnt[%(v)s] += 1;
 %(body)s
@@ -286,7 +287,12 @@ def gen_kernel(r, k):
     # the text in front of the annotation is replaced by the generated loop / work-item index on every target - also when it is a
     # hand-written loop header naming ANOTHER range
     opening = r.choice([f"int {v} = 0;", f"int {v} = 0;", f"for (int {v}=1; {v}<{lim}+3; {v}++){{ ", f"for (int {v}=0; {v}<total_cap; {v}++) {{"])
-    src = KSRC % {"incl": incl, "name": name, "lim": lim, "bound": bound, "v": v, "open": opening,
+    # an EARLIER vectorised block over a smaller range: a work-item that has nothing to do there still does the later block
+    first = ""
+    if r.random() < 0.5:
+        first = (f"  const int early_{name} = {lim}/{r.choice([2, 3])};\n  //vectorize_over jj_{name} early_{name}\n"
+                 f"    y[jj_{name}] += 0.0;\n  //end_vectorize")
+    src = KSRC % {"incl": incl, "name": name, "lim": lim, "bound": bound, "v": v, "open": opening, "first": first,
                   "pre": ("const int skip = 2;" if "skip" in bound else "") + (" const int total_cap = 3;" if "total_cap" in opening else ""), "body": "\n".join(body)}
     count = {lim: lambda n: n, lim + "/2": lambda n: n // 2, lim + "-1": lambda n: max(0, n - 1), lim + "-skip": lambda n: max(0, n - 2)}[bound]
     return name, lim, src, files, weights, count, bound != lim
@@ -320,7 +326,14 @@ def real_geometry(n, block):
         class Cq:
             queue = None
 
-        _GEOM[block] = (rec, KernelCupy(function=f1, description=k, block_size=block, context=None, shared_mem_size_bytes=0),
+        # the kernel's context: a ContextCupy as its constructor leaves it (default block size 256), without a device
+        from xobjects.context_cupy import ContextCupy
+        from xobjects.context import XContext
+        cctx = object.__new__(ContextCupy)
+        XContext.__init__(cctx)
+        cctx.default_block_size = 256
+        cctx.default_shared_mem_size_bytes = 0
+        _GEOM[block] = (rec, KernelCupy(function=f1, description=k, block_size=block, context=cctx, shared_mem_size_bytes=0),
                         KernelPyopencl(function=f2, description=k, context=Cq(), wait_on_call=True))
     rec, kc, ko = _GEOM[block]
     rec.clear()
